@@ -1,0 +1,44 @@
+//go:build verif
+
+// Contracts for the govc verifier (see /verif/DESIGN.md). Comment-only.
+
+package utils
+
+// Outgoing transfer: t.dataStream is a byte stream S (ghost: bytes bbyte(S,i), cursor bpos(S), length bend(S)).
+// Each call hands out the next at most mtu bytes; START marks the first segment, END the last one; io.EOF is only
+// reported after the END segment; by induction over the calls the segments' concatenation is S.
+// SegmentStart = 0x02, SegmentEnd = 0x01 (TCPCLv4 XFER_SEGMENT flags).
+
+// govc:func (*OutgoingTransfer).NextSegment property C11 C04
+//@ opt streams bytes
+//@ alloccap 2147483648
+//@ requires 1 <= mtu && mtu <= 2147483648
+//@ requires t.dataStream != nil && bend(t.dataStream) >= 1 && t.startFlag == (bpos(t.dataStream) == 0)
+//@ assigns t.startFlag, t.endFlag, bstream(t.dataStream)
+//@ ensures err == nil ==> dtm != nil && len(dtm.Data) <= mtu && bpos(t.dataStream) == old(bpos(t.dataStream)) + len(dtm.Data)
+//@ ensures err == nil ==> forall i int :: 0 <= i && i < len(dtm.Data) ==> dtm.Data[i] == bbyte(t.dataStream, old(bpos(t.dataStream)) + uint64(i))
+//@ ensures err == nil ==> dtm.TransferId == t.Id
+//@ ensures err == nil ==> ((dtm.Flags & 0x02) != 0) == (old(bpos(t.dataStream)) == 0)
+//@ ensures err == nil && (dtm.Flags & 0x01) != 0 ==> bpos(t.dataStream) == bend(t.dataStream)
+//@ ensures err == nil && (dtm.Flags & 0x01) == 0 ==> len(dtm.Data) == mtu
+//@ ensures err == nil ==> ((dtm.Flags & 0x01) != 0) == t.endFlag
+//@ ensures err == io.EOF ==> old(t.endFlag)
+//@ ensures old(t.endFlag) ==> err != nil
+//@ ensures err != nil ==> dtm == nil
+//@ ensures t.startFlag == (bpos(t.dataStream) == 0) || err != nil
+
+// Incoming transfer: segments are appended to the buffer; the acknowledgement carries the number of bytes received
+// so far; the END flag finishes the transfer; segments of a foreign transfer or after the end are refused.
+// govc:func (*IncomingTransfer).NextSegment property C11
+//@ requires t.buf != nil && dtm != nil
+//@ assigns t.endFlag, wstream(t.buf)
+//@ ensures old(t.endFlag) || t.Id != dtm.TransferId ==> err != nil && dam == nil && wpos(t.buf) == old(wpos(t.buf)) && t.endFlag == old(t.endFlag)
+//@ ensures err == nil ==> !old(t.endFlag) && t.Id == dtm.TransferId
+//@ ensures err == nil && len(dtm.Data) > 0 ==> wpos(t.buf) == old(wpos(t.buf)) + 1 && tokBlk(t.buf, old(wpos(t.buf)), dtm.Data)
+//@ ensures err == nil && len(dtm.Data) == 0 ==> wpos(t.buf) == old(wpos(t.buf))
+//@ ensures err == nil ==> dam != nil && dam.AckLen == old(buflen(t.buf)) + len(dtm.Data) && dam.TransferId == dtm.TransferId && dam.Flags == dtm.Flags
+//@ ensures err == nil ==> t.endFlag == ((dtm.Flags & 0x01) != 0)
+
+// govc:func (IncomingTransfer).IsFinished property C11
+//@ assigns nothing
+//@ ensures result == t.endFlag
